@@ -30,4 +30,18 @@ Export(ob, name) == FindExport(ob.rt.exports, name, 1)
 Verdict(ob, ok, why, nontrivial, explainedBy) ==
   [verdict |-> IF ok THEN "accept" ELSE "reject", case |-> ob.case, why |-> why,
    nontrivial |-> nontrivial, explainedBy |-> explainedBy, marker |-> "VERDICT"]
+(* Verdict with attribution (DESIGN 5): a rejection is explained by a listed deviation d iff the *)
+(* observation is accepted with exactly d's deviant behaviour substituted.  When no deviation    *)
+(* explains it but one changes the reason, the reason under that deviation is the informative one *)
+(* (a different wrong value inside a known region).                                              *)
+Judged(ob, Why(_, _), Listed, nontrivial) ==
+  LET w0 == Why(ob, {}) IN
+  IF w0 = "" THEN Verdict(ob, TRUE, "", nontrivial, {})
+  ELSE LET by  == {d \in Listed : Why(ob, {d}) = ""}
+           alt == {d \in Listed : Why(ob, {d}) # w0}
+       IN Verdict(ob, FALSE,
+                  IF by = {} /\ alt # {}
+                  THEN LET d == CHOOSE x \in alt : TRUE IN Why(ob, {d}) \o " [beyond " \o d \o "]"
+                  ELSE w0,
+                  nontrivial, by)
 =============================================================================
